@@ -10,11 +10,12 @@ import (
 	"sync/atomic"
 	"testing"
 	"time"
+	"tunnox-core/internal/protocol/httptypes"
 
 	"pgregory.net/rapid"
 
-	"tunnox-core/internal/core/storage/hybrid"
 	"tunnox-core/internal/cloud/models"
+	"tunnox-core/internal/core/storage/hybrid"
 	"tunnox-core/internal/core/storage/memory"
 	"tunnox-core/internal/packet"
 	"tunnox-core/internal/protocol/session"
@@ -52,16 +53,17 @@ type slot struct {
 }
 
 type world struct {
-	srv     *miniserver.Server
-	slots   []*slot
-	ids     [nClients]int64
-	secrets [nClients]string
-	seq     int
-	cfg     Case
-	outage  *vkit.OutageStore
-	scfg    *session.SessionConfig
-	mapID   string // a port mapping client 0 (listen) -> client 1 (target)
-	tunnels int
+	srv      *miniserver.Server
+	slots    []*slot
+	ids      [nClients]int64
+	secrets  [nClients]string
+	seq      int
+	cfg      Case
+	outage   *vkit.OutageStore
+	scfg     *session.SessionConfig
+	mapID    string // a port mapping client 0 (listen) -> client 1 (target)
+	tunnels  int
+	proxySeq int
 }
 
 func newWorld(c Case) (*world, error) {
@@ -308,6 +310,50 @@ func (w *world) step(a Action) (*fail, string) {
 			except = s.cl.ConnID
 		}
 		w.srv.SM.KickOldControlConnection(w.ids[ci], except)
+	case "proxy_push_fail":
+		// the HTTP side pushes a proxy request to a client's control connection and the write fails (transient
+		// I/O error): the request fails, and whatever the server does about the connection, once the call has
+		// returned no lookup may hand out a connection whose transport or stream is gone
+		ci := a.Client % nClients
+		cc0 := w.srv.SM.GetControlConnectionByClientID(w.ids[ci])
+		if cc0 == nil {
+			return nil, tag + ":skipped"
+		}
+		var sl *slot
+		for _, x := range w.live() {
+			if x.cl.ConnID == cc0.GetConnID() {
+				sl = x
+			}
+		}
+		if sl == nil {
+			return nil, tag + ":skipped"
+		}
+		sl.cl.Far.FailWriteAfter.Store(0)
+		w.proxySeq++
+		done := make(chan error, 1)
+		go func() {
+			_, err := w.srv.SM.SendHTTPProxyRequest(w.ids[ci], &httptypes.HTTPProxyRequest{RequestID: fmt.Sprintf("c07-proxy-%d", w.proxySeq), Method: "GET", URL: "http://127.0.0.1:1/", Timeout: 1})
+			done <- err
+		}()
+		select {
+		case err := <-done:
+			if err == nil {
+				tag += ":unexpected-success"
+			}
+		case <-time.After(5 * time.Second):
+			return &fail{"C07/harness/proxy-push-did-not-return", "SendHTTPProxyRequest with a failing transport write did not return within 5 s"}, tag
+		}
+		sl.cl.Far.FailWriteAfter.Store(-1)
+		if cc := w.srv.SM.GetControlConnectionByClientID(w.ids[ci]); cc != nil {
+			for _, x := range w.slots {
+				if x.cl.ConnID == cc.GetConnID() && (x.cl.Far.IsClosed() || cc.Stream == nil) {
+					return &fail{"C07/lookup-returns-connection-without-transport/after-failed-push-returned",
+						fmt.Sprintf("a proxy-request push to client %d failed on a transport write error and returned; a lookup of the client still returns %s, whose transport is closed=%v and whose stream is nil=%v", ci, cc.GetConnID(), x.cl.Far.IsClosed(), cc.Stream == nil)}, tag
+				}
+			}
+		}
+		// the outbound stream of this connection may now be cut mid-packet: the peer hangs up
+		sl.cl.Near.Close()
 	case "heartbeat":
 		s := pickCtl()
 		if s == nil {
@@ -560,7 +606,7 @@ func genCase(t *rapid.T) Case {
 	n := rapid.IntRange(2, vkit.Pick(22, 40)).Draw(t, "n")
 	c.Actions = append(c.Actions, Action{Kind: "accept"}, Action{Kind: "accept"})
 	for i := 0; i < n; i++ {
-		k := rapid.SampledFrom([]string{"accept", "accept", "login", "login", "login", "login", "login_tunnel", "login_tunnel", "tunnel_open", "tunnel_open", "login_bad", "login_bad", "phase1", "kick", "heartbeat", "sweep", "sweep_outage", "reregister", "close_server", "close_peer", "close_server_outage", "close_peer_outage"}).Draw(t, "kind")
+		k := rapid.SampledFrom([]string{"accept", "accept", "login", "login", "login", "login", "login_tunnel", "login_tunnel", "tunnel_open", "tunnel_open", "login_bad", "login_bad", "phase1", "kick", "heartbeat", "sweep", "sweep_outage", "reregister", "proxy_push_fail", "close_server", "close_peer", "close_server_outage", "close_peer_outage"}).Draw(t, "kind")
 		a := Action{Kind: k, Conn: rapid.IntRange(0, 7).Draw(t, "conn"), Client: rapid.IntRange(0, nClients-1).Draw(t, "client")}
 		if k == "sweep" || k == "kick" || k == "sweep_outage" {
 			a.Mask = rapid.IntRange(0, 31).Draw(t, "mask")
@@ -586,7 +632,7 @@ func TestEnumerated(t *testing.T) {
 		}
 		alpha = append(alpha, Action{Kind: "close_peer", Conn: conn}, Action{Kind: "close_server", Conn: conn})
 	}
-	alpha = append(alpha, Action{Kind: "kick", Client: 0, Mask: 1}, Action{Kind: "accept"})
+	alpha = append(alpha, Action{Kind: "kick", Client: 0, Mask: 1}, Action{Kind: "accept"}, Action{Kind: "proxy_push_fail", Client: 0})
 	depth := vkit.Pick(3, 5)
 	total := 1
 	for i := 0; i < depth; i++ {
@@ -735,6 +781,16 @@ func TestReplay(t *testing.T) {
 	vkit.LoadReplay(path, &rr)
 	if rr.RemoveRace != "" { // schedule-dependent: the replay unit is the search itself
 		TestRemoveRace(t)
+		return
+	}
+	var sc StallCase
+	vkit.LoadReplay(path, &sc)
+	if sc.Stalled != "" {
+		if key, detail, err := runStalled(sc); err != nil {
+			t.Fatal(err)
+		} else if key != "" {
+			vkit.Violation(t, key, detail, sc)
+		}
 		return
 	}
 	var c Case
